@@ -269,9 +269,12 @@ def make_datasets(ctx):
     dclab = common.import_dclab()
     n = 12
     toks = list(range(n))
-    p1 = ctx.workdir / "c_orig.rtdc"
+    make_datasets.count = getattr(make_datasets, "count", 0) + 1
+    wd = ctx.workdir / f"mk{make_datasets.count}"
+    wd.mkdir()
+    p1 = wd / "c_orig.rtdc"
     gen.make_rtdc(p1, toks, feats=["deform", "area_um", "bright_avg"], rid="rid-c17")
-    p2 = ctx.workdir / "c_ref.rtdc"
+    p2 = wd / "c_ref.rtdc"
     with dclab.RTDCWriter(p2, mode="reset") as hw:
         import copy
         meta = copy.deepcopy(gen.BASE_META)
@@ -290,7 +293,7 @@ def make_datasets(ctx):
         out["child-" + k] = dclab.new_dataset(par)
     out["basin"] = dclab.new_dataset(p2)
     # mapped basin: the referrer's events are origin events [5, 1, 1, 7, 0, 11]
-    p3 = ctx.workdir / "c_ref_mapped.rtdc"
+    p3 = wd / "c_ref_mapped.rtdc"
     bmap = np.array([5, 1, 1, 7, 0, 11], dtype=np.uint64)
     with dclab.RTDCWriter(p3, mode="reset") as hw:
         import copy
@@ -391,6 +394,31 @@ def part_c(ctx):
                     ctx.violation("spec", f"in-place modification of ds['{feat}'][i] on a {kind} "
                                           f"dataset changes later reads",
                                   {"part": "C", "kind": kind, "feat": feat, "accesses": nacc})
+    # first access with an explicit dtype / copy request must not poison the cache
+    for kind in list(dss):
+        for conv in ("float32", "int64", "float16", "copy-True"):
+            try:
+                fresh = make_datasets(ctx)
+                ref = np.array(dss[kind]["deform"][:], copy=True)
+                d2 = fresh[kind]
+                if conv == "copy-True":
+                    np.array(d2["deform"], copy=True)
+                else:
+                    np.asarray(d2["deform"], dtype=conv)
+                got = d2["deform"][:]
+                ctx.case(("C-first", kind, conv), nontrivial=True)
+                ctx.stat("C:first-access-dtype")
+                if got.dtype != ref.dtype or not np.array_equal(got, ref, equal_nan=True):
+                    ctx.violation("spec", f"after a first access np.asarray(ds['deform'], dtype={conv}) "
+                                          f"on a {kind} dataset, later reads return dtype {got.dtype} / "
+                                          "other values", {"part": "C", "kind": kind, "first": conv})
+                for d in fresh.values():
+                    try:
+                        d.close() if hasattr(d, "close") else None
+                    except Exception:
+                        pass
+            except Exception as e:  # noqa
+                ctx.note(f"C17 part C first-access {kind}/{conv}: {e!r}"[:160])
     # results of analysis entry points
     ds = dss["hdf5"]
     for name, fn in [("kde_scatter", lambda: ds.get_kde_scatter("area_um", "deform")),
